@@ -223,6 +223,20 @@ func ifaceProducers(s ssa.Value) (prods map[string]bool, user bool, unknown stri
 	seenS := map[ssa.Value]bool{}
 	seenV := map[ssa.Value]bool{}
 	var elem func(v ssa.Value, d int)
+	// results follows a call into a helper of the module: what the helper
+	// returns at that result position is what the call yields
+	results := func(c *ssa.Call, idx int, d int) bool {
+		g := c.Common().StaticCallee()
+		if g == nil || !InModule(g) || g.Blocks == nil || idx >= g.Signature.Results().Len() {
+			return false
+		}
+		for _, b := range g.Blocks {
+			if ret, ok := b.Instrs[len(b.Instrs)-1].(*ssa.Return); ok {
+				elem(ret.Results[idx], d+1)
+			}
+		}
+		return true
+	}
 	elem = func(v ssa.Value, d int) {
 		if v == nil || seenV[v] || d > 12 {
 			return
@@ -258,7 +272,7 @@ func ifaceProducers(s ssa.Value) (prods map[string]bool, user bool, unknown stri
 			case *ssa.Call:
 				if types.IsInterface(x.Type()) && x.Type().String() != "interface{}" && x.Type().String() != "any" {
 					prods["ItemNode"] = true
-				} else {
+				} else if !results(t, x.Index, d) {
 					unknown = "result of " + t.String()
 				}
 			case *ssa.TypeAssert:
@@ -271,7 +285,7 @@ func ifaceProducers(s ssa.Value) (prods map[string]bool, user bool, unknown stri
 		case *ssa.Call:
 			if nt, ok := x.Type().(*types.Named); ok && nt.Obj().Name() == "ItemNode" {
 				prods["ItemNode"] = true
-			} else {
+			} else if !results(x, 0, d) {
 				unknown = "result of " + x.String()
 			}
 		case *ssa.UnOp:
@@ -509,6 +523,16 @@ func ruleFillPassThrough(p *Prog, r *Report) {
 			continue
 		}
 		key := rule + ":ast.(*" + tn + ").FillVariables"
+		if tn != "ListNode" {
+			if d, decided, good := fillByEvaluation(p, fn); decided {
+				if good {
+					r.ok(rule, key, p.Pos(fn.Pos()), d)
+				} else {
+					r.bad(rule, key, p.Pos(fn.Pos()), d)
+				}
+				continue
+			}
+		}
 		// the factory call and its argument slice
 		var call *ssa.Call
 		for _, b := range fn.Blocks {
@@ -623,6 +647,15 @@ func ruleFillPassThrough(p *Prog, r *Report) {
 	if fn := p.MustFunc(r, "ast", "(*ASCIINode).FillVariables"); fn != nil {
 		key := rule + ":ast.(*ASCIINode).FillVariables"
 		good := false
+		if d, decided, ok := fillASCIIByEvaluation(p, fn); decided {
+			if ok {
+				r.ok(rule, key, p.Pos(fn.Pos()), d)
+			} else {
+				r.bad(rule, key, p.Pos(fn.Pos()), d)
+			}
+			r.Floor(rule, 7)
+			return
+		}
 		for _, b := range fn.Blocks {
 			for _, instr := range b.Instrs {
 				if c, ok := instr.(*ssa.Call); ok {
@@ -690,4 +723,94 @@ func derivesFromLookup(v ssa.Value, d int) bool {
 		}
 	}
 	return false
+}
+
+// fillByEvaluation decides the pass-through of a fill-in value by evaluating
+// FillVariables on a node of two elements whose second position is the
+// variable "x", with a fill-in map that holds an arbitrary (symbolic) value
+// for "x": the value handed to the factory at that position must be that very
+// symbol - anything computed from it would be a different term. decided is
+// false when the evaluation does not reach a factory call with a known
+// argument list (the syntactic rule then decides).
+func fillByEvaluation(p *Prog, fn *ssa.Function) (detail string, decided, good bool) {
+	ifaceT := types.NewInterfaceType(nil, nil)
+	run := func(keys []Val) (called bool, e0, e1 Val, n int, out Outcome, stuck bool) {
+		in := symInterp(p)
+		in.PathBind["p0.byteSize"] = int64Val(8)
+		in.PathBind["p0.values"] = Val{K: KSlice, S: "p0.values", Len: 2}
+		in.MapKeys["p0.variables"] = []Val{strVal("x")}
+		in.InitBind[`p0.variables["x"]`] = int64Val(1)
+		in.MapKeys["p1"] = keys
+		in.OnCall = func(call *ssa.Call, callee *ssa.Function, a []Val, fr *frame) {
+			vi := variadicIndex(callee)
+			if !isFactory(callee) || vi < 0 || vi >= len(a) {
+				return
+			}
+			called = true
+			n = a[vi].Len
+			if a[vi].K == KSlice && a[vi].Len == 2 {
+				e0 = in.Elem(a[vi], 0, ifaceT)
+				e1 = in.Elem(a[vi], 1, ifaceT)
+			}
+		}
+		args := defaultArgs(fn)
+		if len(args) > 1 {
+			args[1] = Val{K: KPtr, S: "p1"}
+		}
+		out = in.Run(fn, args, nil)
+		return called, e0, e1, n, out, len(in.Stuck) > 0
+	}
+	called, _, e1, n, _, stuck := run([]Val{strVal("x")})
+	if stuck || !called || n != 2 {
+		return "", false, false
+	}
+	if !(e1.K == KSym && e1.S == `p1["x"]`) {
+		return fmt.Sprintf("with a fill-in value for the variable at position 1, the factory receives %s at that position instead of the caller's value itself", e1), true, false
+	}
+	called2, _, f1, n2, out2, stuck2 := run(nil)
+	if stuck2 {
+		return "", false, false
+	}
+	if called2 {
+		if n2 != 2 || !(f1.K == KIface && f1.Inner != nil && f1.Inner.K == KStr && f1.Inner.S == "x") {
+			return fmt.Sprintf("without a fill-in value the variable position is rebuilt from %s instead of the variable's name", f1), true, false
+		}
+	} else {
+		rets := out2.Frame.ReturnVals()
+		if len(rets) != 1 {
+			return "", false, false
+		}
+	}
+	return "evaluated on a node whose position 1 is a variable: the value the caller's map holds for it reaches the factory at that position as the very same (symbolic) value; without an entry the variable's name is kept", true, true
+}
+
+// fillASCIIByEvaluation: the string found in the caller's map for the node's
+// variable is the string NewASCIINode is called with.
+func fillASCIIByEvaluation(p *Prog, fn *ssa.Function) (detail string, decided, good bool) {
+	in := symInterp(p)
+	in.PathBind["p0.isValue"] = boolVal(false)
+	in.PathBind["p0.variable.name"] = strVal("x")
+	in.MapKeys["p1"] = []Val{strVal("x")}
+	fill := symVal("FILL", false)
+	in.InitBind[`p1["x"]`] = Val{K: KIface, T: types.Typ[types.String], Inner: &fill}
+	var got []Val
+	in.OnCall = func(call *ssa.Call, callee *ssa.Function, a []Val, fr *frame) {
+		if callee.Name() == "NewASCIINode" && len(a) == 1 {
+			got = append(got, a[0])
+		}
+	}
+	args := defaultArgs(fn)
+	if len(args) > 1 {
+		args[1] = Val{K: KPtr, S: "p1"}
+	}
+	in.Run(fn, args, nil)
+	if len(in.Stuck) > 0 || len(got) == 0 {
+		return "", false, false
+	}
+	for _, g := range got {
+		if !(g.K == KSym && g.S == "FILL") {
+			return fmt.Sprintf("the fill-in string reaches NewASCIINode as %s, not as the caller's string itself", g), true, false
+		}
+	}
+	return "evaluated with an arbitrary (symbolic) string in the caller's map: NewASCIINode is called with that very string", true, true
 }
